@@ -2,20 +2,20 @@
 From Coq Require Import List NArith Bool.
 From Frugal Require Import Bytes Wire Skip Values Desc Spec Encode Decode Checks Tags State Bitset Alloc DescMap Conc LegacyDefs.
 From Frugal.gen Require Import Params.
-From Frugal.proofs Require Import GenParams DecodeSafe.
-From Frugal.proofs Require Import DecodeSound.
+From Frugal.proofs Require Import GenDecParams DecodeSafe.
+From Frugal.proofs Require Import DecodeSound DecodeCost.
 From Frugal.props Require Import Examples.
 Import ListNotations.
 
 (* for EVERY byte string: never a Go panic (index / slice out of range, division by zero) and the
    loops always terminate within their fuel *)
-Theorem C05_no_panic : forall env pool sid bs dst, params_ok = true ->
+Theorem C05_no_panic : forall env pool sid bs dst, dec_params_ok = true ->
   decode_object env pool sid bs dst <> DPanic /\ decode_object env pool sid bs dst <> DFuel.
 Proof. exact decode_object_safe_any. Qed.
 Print Assumptions C05_no_panic.
 
 (* so the outcome is success on a strict prefix, with n the length consumed, or an error *)
-Theorem C05_total : forall env pool sid bs dst, params_ok = true ->
+Theorem C05_total : forall env pool sid bs dst, dec_params_ok = true ->
   (exists v n rest, decode_object env pool sid bs dst = DOk (v, n) rest /\ (length rest < length bs)%nat
                     /\ n = (len bs - len rest)%N)
   \/ (exists e, decode_object env pool sid bs dst = DErr e).
@@ -26,7 +26,7 @@ Proof. exact decode_object_total. Qed.
    decoder computes from it (the converse, acceptance of every well-formed message within the depth
    budgets, is C03_decode_is_absorb) *)
 Theorem C05_sound : forall env pool sid bs dst v n rest,
-  params_ok = true -> env_ok env = true -> bytes_ok bs = true ->
+  dec_params_ok = true -> env_ok env = true -> bytes_ok bs = true ->
   decode_object env pool sid bs dst = DOk (v, n) rest ->
   exists fs, wf (WStruct fs []) = true /\ bs = put (WStruct fs []) ++ rest
              /\ n = len (put (WStruct fs [])) /\ absorb_top env sid (WStruct fs []) dst = AOk v.
@@ -34,21 +34,65 @@ Proof. exact decode_sound. Qed.
 Print Assumptions C05_sound.
 
 (* truncated input is an error *)
-Theorem C05_empty_is_short : forall env pool sid sd fs h, params_ok = true -> lookup_sd env sid = Some sd ->
+Theorem C05_empty_is_short : forall env pool sid sd fs h, dec_params_ok = true -> lookup_sd env sid = Some sd ->
   decode_object env pool sid [] (VT fs h) = DErr EShort.
 Proof. exact decode_empty. Qed.
 
 (* the table of minimal wire sizes used by the pre-allocation checks never exceeds a real encoding *)
-Theorem C05_min_wire_sound : params_ok = true.
-Proof. exact params_ok_holds. Qed.
+Theorem C05_min_wire_sound : dec_params_ok = true.
+Proof. exact dec_params_ok_holds. Qed.
 
-(* PARTIAL: the bound on time and memory in terms of the input length is not a theorem here; the
-   model has no cost semantics.  It is measured by the correspondence run (TotalAlloc, wall time). *)
+(* memory: what a successful decode builds is linear in the bytes it consumed.  vsize counts the
+   nodes of the decoded value (scalars, string bytes, container elements, structs and their holder);
+   K_env is one more than the most expensive struct of the schema to create (its zero value plus
+   what InitDefault assigns) -- a constant of the destination type, not of the input *)
+Theorem C05_memory_linear : forall env pool sid bs dst v n rest,
+  dec_params_ok = true -> env_ok env = true -> bytes_ok bs = true ->
+  decode_object env pool sid bs dst = DOk (v, n) rest ->
+  (vsize v <= vsize dst + K_env env * N.to_nat n)%nat.
+Proof. exact decode_cost. Qed.
+Print Assumptions C05_memory_linear.
+
+(* and the allocations made up front are bounded before anything is decoded: a container header
+   whose count cannot fit into the remaining bytes is refused whatever the element decoder dt
+   would do, and a count that passes is at most the number of remaining bytes *)
+Theorem C05_list_count_refused : forall env dt, dec_params_ok = true -> forall e tp h r1,
+  len h = 4%N -> neg32 (be_get h) = false -> wt e = tp ->
+  (len r1 < be_get h * min_wire (wt e))%N ->
+  dec_list env dt e (tp :: h ++ r1) = DErr ESizeExceeds.
+Proof. exact list_count_rejected. Qed.
+
+Theorem C05_list_count_bounded : forall env dt, dec_params_ok = true -> forall e tp h r1,
+  len h = 4%N -> neg32 (be_get h) = false -> wt e = tp -> be_get h <> 0%N ->
+  short r1 (be_get h * min_wire (wt e)) = false ->
+  (be_get h <= len r1)%N /\ dec_list env dt e (tp :: h ++ r1) = list_loop env dt (be_get h) e r1.
+Proof. exact list_count_admitted. Qed.
+
+Theorem C05_map_count_refused : forall env dt, dec_params_ok = true -> forall kt vt kc vc h r1,
+  len h = 4%N -> neg32 (be_get h) = false -> kc = wt kt -> vc = wt vt ->
+  (len r1 < be_get h * (min_wire (wt kt) + min_wire (wt vt)))%N ->
+  dec_map env dt kt vt (kc :: vc :: h ++ r1) = DErr ESizeExceeds.
+Proof. exact map_count_rejected. Qed.
+
+Theorem C05_string_length_refused : dec_params_ok = true -> forall h r,
+  len h = 4%N -> neg32 (be_get h) = false -> (len r < be_get h)%N ->
+  dec_string (h ++ r) = DErr ESizeExceeds.
+Proof. exact string_len_rejected. Qed.
+
+(* PARTIAL: time, and the memory of a decode that FAILS midway (what it allocated before the
+   error), are not theorems: the model has no cost semantics for steps.  They are measured by the
+   correspondence run (TotalAlloc, wall time, under a memory limit). *)
+Example C05_hostile_counts :
+  decode_object env_ex [] 0 [15; 0; 3; 12; 127; 255; 255; 255]%N (fresh env_ex 0) = DErr ESizeExceeds
+  /\ decode_object env_ex [] 0 [13; 0; 4; 11; 10; 127; 255; 255; 255; 0; 0; 0; 0; 0; 0; 0; 0; 0; 0; 0]%N
+                   (fresh env_ex 0) = DErr ESizeExceeds
+  /\ decode_object env_ex [] 0 [11; 0; 2; 127; 255; 255; 255; 65]%N (fresh env_ex 0) = DErr ESizeExceeds.
+Proof. exact ex_hostile. Qed.
 Example C05_instance : decode_object env_ex [] 0 [8; 0; 1; 0; 0] (fresh env_ex 0) = DErr EShort
   /\ decode_object env_ex [] 0 [15; 0; 3; 12; 127; 255; 255; 255] (fresh env_ex 0) = DErr ESizeExceeds.
 Proof. split; vm_compute; reflexivity. Qed.
 
 (* the side conditions on the generated constants and tables that the theorems above assume hold
    for what the translator read from the sources of this run *)
-Theorem C05_side_conditions : params_ok = true.
-Proof. exact params_ok_holds. Qed.
+Theorem C05_side_conditions : dec_params_ok = true.
+Proof. exact dec_params_ok_holds. Qed.
